@@ -26,6 +26,16 @@ Spec == Init /\ [][Next]_n
 \* the spine is a path: every node's parent is the node before it
 PathShaped == \A o \in Outer, ch \in Chains(n), leaf \in Leaves :
                  LET t == Table(o, ch, leaf) IN \A i \in 2..(n + 2) : t[i].p = i - 1
+\* name shapes: a definition with a required, a DEFAULT and a nested optional component (itself with a DEFAULT), under type
+\* references of every shape the identifier conversion distinguishes (hyphen before a digit, a letter, a capital; digits; capitals)
+NameShapes == {"Ty-2x", "Ty-a2", "T2-3", "Ty2", "TY-2X", "Ty-Ab", "Ty-2-3x", "Ty2x-y"}
+Named(nm, o) == << [Node(o, 0, "def") EXCEPT !.k = o] @@ [name |-> nm],
+                   Node("BOOLEAN", 1, RoleUnder(o)),
+                   [Node("INTEGER", 1, RoleUnder(o)) EXCEPT !.opt = IF o = "CHOICE" THEN "req" ELSE "def"],
+                   [Node("SEQUENCE", 1, RoleUnder(o)) EXCEPT !.opt = IF o = "CHOICE" THEN "req" ELSE "opt"],
+                   [Node("BOOLEAN", 4, "comp") EXCEPT !.opt = "def"] >>
+EmitNames == n = 1 => \A nm \in NameShapes, o \in Outer :
+                PrintT(<<"CASE", ToJson([mods |-> << [tagdef |-> "AUTOMATIC", implied |-> FALSE] >>, nodes |-> Named(nm, o)])>>)
 Emit == \A o \in Outer, ch \in Chains(n), leaf \in Leaves :
            PrintT(<<"CASE", ToJson([mods |-> << [tagdef |-> "AUTOMATIC", implied |-> FALSE] >>, nodes |-> Table(o, ch, leaf)])>>)
 =============================================================================
